@@ -210,6 +210,9 @@ func runC20(ctx *Ctx) error {
 	for combo := 0; combo < 32; combo++ {
 		for rep := 0; rep < ctx.N(2, 20); rep++ {
 			p := catalog.PosReport{Date: time.Unix(int64(r.Intn(2000000000)), 0)}
+			if rep == 1 {
+				p.Date = time.Time{} // a report whose date was never set is still a valid message
+			}
 			ml := []string{"posrep", ts(p.Date.UTC().Format(fbb.DateLayout))}
 			lat, lon := r.Float64()*180-90, r.Float64()*360-180
 			coord := func(set bool, x float64) string {
